@@ -264,14 +264,14 @@ def run_case(arg):
                 c = packcase.rand_config(r, small=(tier == "quick"))
                 tree, feats = gentree.gen_tree(r, bs=c["bs"], max_entries=60 if tier == "quick" else 150)
                 want = "ok"
-                if c["input"] != "dir":
+                if c["input"] not in ("dir", "glob"):
                     # pack files are line based
                     if any(b"\n" in p or (n.target and b"\n" in n.target) for p, n in tree.items()):
                         c["input"] = "dir"
                     else:
                         c["xattr_file"] = packcase.xattr_file_ok(tree) and r.random() < 0.7
                         c["always_quote"] = r.random() < 0.3
-                if c["input"] == "dir":
+                if c["input"] in ("dir", "glob"):
                     for p, n in tree.items():
                         # chown(-1) means "leave unchanged": not materialisable
                         if n.uid == 0xFFFFFFFF:
